@@ -23,9 +23,20 @@ CHECKS = {
     design="4/C06"),
 }
 
+def load_fragments():
+    """checks/cxx_manifest.json fragments written per property ({"text","note","technique","design"})."""
+    import glob
+    for p in sorted(glob.glob(os.path.join(VERIF, "checks", "c[0-9][0-9]_manifest.json"))):
+        pid = os.path.basename(p)[:3].upper()
+        if os.path.exists(os.path.join(VERIF, "checks", pid.lower() + ".py")) and pid not in CHECKS and pid in ids:
+            d = json.load(open(p))
+            CHECKS[pid] = dict(text=d["text"], note=d["note"], technique=d["technique"], design=d.get("design", "4/" + pid))
+
+
 def main():
+    load_fragments()
     checks = []
-    for pid, c in CHECKS.items():
+    for pid, c in sorted(CHECKS.items()):
         n = pid.lower()
         checks.append({
             "property_id": pid,
